@@ -278,7 +278,28 @@ func TestC05(t *testing.T) {
 	rec.Describe("two families. struct: a jsonschema.Schema value whose exported fields (table obtained by reflection) are populated in every way their Go types allow — nil, empty non-nil, pointer-to-nil const, nested to depth 2 — under the documented exclusivity rules (Type xor Types, Items xor ItemsArray, Defs xor Definitions, disjoint dependency maps, duplicate-free PropertyOrder, Extra keys disjoint from keywords, incl. case variants of keywords); oracle: Marshal/Unmarshal/Marshal bytes (JSON value when a PropertyOrder is set), Resolve symmetric, identical verdict vectors on 4 instances. doc: schema document of either draft from the C01/C02 grammar plus unknown keywords; oracle: Marshal(Unmarshal(doc)) == doc as a JSON value after the documented normalisations, and identical verdicts for doc, its re-marshaled form and the reference evaluator. Non-trivial: >=3 populated fields / keywords at the root. Distinct = distinct (schema, instance).",
 		"Vocabulary is left nil in struct cases (it is only resolvable beside the 2020-12 $schema value); $schema below the root and references are not set in struct cases (C03/C06/C17 cover references)",
 		"float fields are finite, integer fields lie within int32")
-	rapid.Check(t, func(t *rapid.T) {
+	rapid.Check(t, propC05(rec))
+}
+
+func init() {
+	replayers["C05"] = func(raw json.RawMessage) *failure {
+		var c c05Case
+		if err := json.Unmarshal(raw, &c); err != nil {
+			return failf("REPLAY-HARNESS-ERROR: %v", err)
+		}
+		fixNils(c.Instances)
+		fl := checkC05(&c, nil)
+		if isHarnessFailure(fl) {
+			return failf("REPLAY-HARNESS-ERROR: %s", fl.Msg)
+		}
+		return fl
+	}
+}
+
+// propC05 is the property body, shared by TestC05 (rapid) and FuzzC05 (native fuzzing over
+// rapid's bit stream).
+func propC05(rec *ev.Recorder) func(t *rapid.T) {
+	return func(t *rapid.T) {
 		c := &c05Case{}
 		if rapid.IntRange(0, 1).Draw(t, "family") == 0 {
 			c.Family = "struct"
@@ -327,20 +348,5 @@ func TestC05(t *testing.T) {
 			report(t, rec, c, fl)
 		}
 		rec.Case()
-	})
-}
-
-func init() {
-	replayers["C05"] = func(raw json.RawMessage) *failure {
-		var c c05Case
-		if err := json.Unmarshal(raw, &c); err != nil {
-			return failf("REPLAY-HARNESS-ERROR: %v", err)
-		}
-		fixNils(c.Instances)
-		fl := checkC05(&c, nil)
-		if isHarnessFailure(fl) {
-			return failf("REPLAY-HARNESS-ERROR: %s", fl.Msg)
-		}
-		return fl
 	}
 }
